@@ -177,8 +177,9 @@ mzd_t *vf_mul_mp(mzd_t *C, mzd_t const *A, mzd_t const *B, int cutoff, int add, 
   *unsupported = 0;
   return add ? mzd_addmul_mp(C, A, B, cutoff) : mzd_mul_mp(C, A, B, cutoff);
 #else
-  *unsupported = 1;
-  return NULL;
+  /* the sequential build has no multi-core front end: its counterpart is the plain Strassen-Winograd product */
+  *unsupported = 2;
+  return add ? mzd_addmul(C, A, B, cutoff) : mzd_mul(C, A, B, cutoff);
 #endif
 }
 
